@@ -738,25 +738,38 @@ class Vector():
 
 			# Object dtype accepts any type - skip validation
 			if self._dtype is not None and self._dtype.kind is not object:
-				incompatible = None
+				# Examine EVERY incoming value before touching the vector, so a rejected
+				# assignment leaves it unchanged: None needs a nullable dtype, a wider
+				# value on the same ladder needs a promotion, anything else is rejected.
+				target = self._dtype
 				for val in new_values:
 					try:
-						validate_scalar(val, self._dtype)
+						validate_scalar(val, target)
+						continue
 					except TypeError:
-						incompatible = val
-						break
-
-				if incompatible is not None:
-					required_dtype = infer_dtype([incompatible])
-					try:
-						self._promote(required_dtype.kind)
-						underlying = self._underlying
-					except SerifTypeError:
+						pass
+					if val is None:
+						target = target.with_nullable(True)
+						continue
+					required_kind = infer_dtype([val]).kind
+					if (target.kind, required_kind) not in (
+						(int, float), (int, complex), (float, complex), (date, datetime)
+					):
 						raise SerifTypeError(
-							f"Cannot set {required_dtype.kind.__name__} in "
+							f"Cannot set {required_kind.__name__} in "
 							f"{self._dtype.kind.__name__} vector. "
 							f"Promotion not supported."
 						)
+					target = DataType(required_kind, nullable=target.nullable)
+
+				if target.kind is not self._dtype.kind:
+					self._promote(target.kind)
+					underlying = self._underlying
+				if target.nullable and not self._dtype.nullable:
+					self._dtype = self._dtype.with_nullable(True)
+			elif self._dtype is not None and not self._dtype.nullable and any(v is None for v in new_values):
+				# object columns take any value, but storing None still makes them nullable
+				self._dtype = self._dtype.with_nullable(True)
 		# =====================================================================
 		# MUTATE — copy-on-write + fingerprint updates
 		# =====================================================================
